@@ -137,8 +137,107 @@ def cross_version_marker_cases(ctx, n):
     return out
 
 
+def model_message_pass(ctx, cases):
+    """Decoding must not lean on the implementation's own encoder: where that encoder refuses the generated values, or writes
+    other bits than the extracted model encoder (proved: Spec.layout), the MODEL's bits are framed by hand and given to the
+    decoder: the values must be the generated ones."""
+    todo = []
+    for c in cases:
+        if not c.get('toks') or not c.get('gen', '').startswith('ok') or not c.get('model_enc', '').startswith('ok '):
+            continue
+        ie = c.get('impl_enc')
+        same = False
+        if ie and ie[0] == 'ok':
+            same, _ = P.compare_encode(c)
+        if not same:
+            todo.append(c)
+    for c in todo[:400]:
+        mm = P.model_message(c)
+        if mm is None:
+            continue
+        b, n = mm
+        case = {'ids': c['ids'], 'seed': c['seed'], 'forced': c['forced'], 'nsub': c['nsub'], 'version': c['version'],
+                'edition': 4, 'compressed': c['compressed'], 'shared': c['shared'], 'bytes': b.hex()}
+        ctx.count(('model-message', tuple(c['ids']), c['seed']), True)
+        ctx.dist['model-encoded message decoded (implementation encoder refused or wrote other bits)'] += 1
+        c2 = dict(c, impl_enc=('ok', b[-4 - ((n + 7) // 8):-4].hex(), 8 * ((n + 7) // 8), b))
+        c2['impl_dec'] = P.impl_decode(c2)
+        if not P.roundtrip_holds(c2):
+            d = c2['impl_dec']
+            if d and d[0] == 'err' and d[1] == 9 and P.wide_field_cause(c2):
+                ctx.violation({'kind': 'C01-roundtrip', 'case': case, 'cause': 'field-wider-than-64-bits'},
+                              'model-encoded message: field wider than 64 bits, ids=%s' % c['ids'])
+                continue
+            dq = 'impl decode: %r' % (d[:2] if d and d[0] == 'err' else 'values differ',)
+            ctx.violation({'kind': 'C01-decode-of-canonical-bits', 'case': case, 'detail': dq},
+                          'the canonical bit stream of the generated values (model encoder) does not decode to them: ids=%s %s'
+                          % (c['ids'], dq))
+
+
+def refval_zero_cases(ctx, n):
+    """Stratum: a new reference value (203YYY) that is exactly 0 for an element whose Table B reference is not 0, also as a
+    re-definition of an earlier non-zero one: 0 is a value like any other (mostly compressed, where the value is a column)."""
+    import tmplgen
+    rng = ctx.rng
+    p = tmplgen.pools(33)
+    els = [i for i in p.numeric if p.b[i][3] != 0 and 4 <= p.b[i][4] <= 24 and 0 <= p.b[i][2] <= 3 and i // 1000 != 31]
+    out = []
+    for k in range(n):
+        e = rng.choice(els)
+        y = rng.choice([8, 12, 16])
+        ids = [203000 + y, e, 203255, e, 203000, e] if k % 2 == 0 else [203000 + y, e, 203255, e, 203000 + y, e, 203255, e, 203000]
+        out.append({'ids': ids, 'version': 33, 'edition': 4, 'nsub': rng.choice([1, 2, 3]), 'compressed': rng.random() < 0.7,
+                    'forced': '-', 'seed': rng.randrange(1, 2 ** 32), 'maxrep': 3,
+                    'features': {'stratum-new-reference-value-zero': 1}, 'shared': False, 'probe': 'refval-zero'})
+        out[-1]['shared'] = out[-1]['compressed']
+    return out
+
+
+def skipped_local_width_cases(ctx, n):
+    """Stratum: the same local descriptor skipped by 206YYY with two different widths in one message; a value of the later
+    (other-width) field equals the all-ones pattern of the EARLIER width. Mostly compressed with differing values."""
+    rng = ctx.rng
+    out = []
+    for k in range(n):
+        L = rng.choice([63255, 48255, 50001, 21192])
+        w0, w1 = rng.sample([3, 4, 5, 8, 12], 2)
+        out.append({'ids': [206000 + w0, L, 1001, 206000 + w1, L], 'version': 33, 'edition': 4, 'nsub': rng.choice([2, 3, 4]),
+                    'compressed': rng.random() < 0.8, 'forced': '-', 'seed': rng.randrange(1, 2 ** 32), 'maxrep': 3,
+                    'features': {'stratum-skipped-local-two-widths': 1}, 'shared': False, 'probe': 'skipped-local-widths'})
+    return out
+
+
 def apply_probe(c):
     """Values of a probe case: a function of the case record only (replays rebuild them)."""
+    if c.get('probe') == 'skipped-local-widths' and c.get('val_toks'):
+        w0, w1 = c['ids'][0] % 1000, c['ids'][3] % 1000
+        for j, toks in enumerate(c['val_toks']):
+            if len(toks) != 3:
+                continue
+            a = j % (2 ** w0 - 1)
+            b2 = (2 ** w0 - 1) % (2 ** w1 - 1) if j == 1 else (j + 1) % (2 ** w1 - 1)
+            toks[0], toks[2] = 'i%d' % a, 'i%d' % b2
+            c['py_vals'][j][0], c['py_vals'][j][2] = a, b2
+        return
+    if c.get('probe') == 'refval-zero' and c.get('val_toks'):
+        import tmplgen
+        p = tmplgen.pools(c.get('version', 33))
+        e = c['ids'][1]
+        sc, r0, w = p.b[e][2], p.b[e][3], p.b[e][4]
+        tok = lambda raw, ref: ('i%d' % (raw + ref)) if sc == 0 else 'd%d:%d' % (raw + ref, sc)
+        two = len(c['ids']) > 6
+        for j, toks in enumerate(c['val_toks']):
+            raw = (j + 5) % (2 ** w - 1)
+            if two:
+                # [ref1, use under ref1, ref2 = 0, use under 0]
+                new = ['i7', tok(raw, 7), 'i0', tok(raw, 0)]
+            else:
+                # [ref = 0, use under 0, use after cancellation (table reference)]
+                new = ['i0', tok(raw, 0), tok(raw, r0)]
+            if len(toks) == len(new):
+                toks[:] = new
+                c['py_vals'][j][:] = [B.model_value_to_python(t) for t in new]
+        return
     if c.get('probe') != 'tableB-allones-in-widened-field' or not c.get('val_toks'):
         return
     import tmplgen
@@ -177,6 +276,8 @@ def run(ctx):
                       'features': {'field-wider-than-64-bits': 1}, 'shared': False})
     cases += widened_allones_cases(ctx, ctx.n(24, 400))
     cases += cross_version_marker_cases(ctx, ctx.n(8, 120))
+    cases += refval_zero_cases(ctx, ctx.n(12, 200))
+    cases += skipped_local_width_cases(ctx, ctx.n(12, 200))
     P.attach_templates(cases)
     P.run_gen(cases)
     for c in cases:
@@ -222,6 +323,7 @@ def run(ctx):
         if nontriv:
             ctx.sample({'ids': c['ids'], 'nsub': c['nsub'], 'values_subset0': c['val_toks'][0][:10],
                         'model_decode': c.get('model_dec', '')[:120]}, limit=3)
+    model_message_pass(ctx, cases)
     ctx.extra['agreeing_cases'] = n_ok
     rej = ctx.dist['generator-rejected']
     if rej > 0.4 * len(cases):
@@ -235,6 +337,14 @@ def run(ctx):
 
 def replay(ctx, rec):
     c = rec['case']
+    if rec.get('kind') == 'C01-decode-of-canonical-bits' or (rec.get('kind') == 'C01-roundtrip' and 'bytes' in c and 'seed' in c):
+        cases = [{'ids': c['ids'], 'version': c.get('version', 33), 'edition': 4, 'nsub': c['nsub'],
+                  'compressed': c.get('compressed', False), 'forced': c['forced'], 'seed': c['seed'], 'maxrep': 3, 'features': {},
+                  'shared': c.get('shared', False), 'probe': c.get('probe')}]
+        P.attach_templates(cases); P.run_gen(cases); apply_probe(cases[0]); P.run_encode(cases)
+        cases[0]['impl_enc'] = ('err', 0)            # force the model-message path
+        model_message_pass(ctx, cases)
+        return {'violations': len(ctx.violations)}
     if 'bytes' in c:
         _, vals, _, _ = B.decode_impl(bytes.fromhex(c['bytes']))
         return {'decoded': vals}
